@@ -14,7 +14,7 @@ def T(module, *names, partial=False):
           "Kanzi.Properties.C01": "Kanzi.C01", "Kanzi.Properties.C19_cli": "Kanzi.C19",
           "Kanzi.Properties.C05_jobs": "Kanzi.C05", "Kanzi.Properties.C12_ans0": "Kanzi.C12",
           "Kanzi.Properties.C01_none": "Kanzi.C01none", "Kanzi.Properties.C03_bound": "Kanzi.C03", "Kanzi.Properties.C19_levels": "Kanzi.C19",
-          "Kanzi.Properties.ConstsTie": "Kanzi.ConstsTie"}[module]
+          "Kanzi.Properties.ConstsTie": "Kanzi.ConstsTie", "Kanzi.Properties.BitOpsTie": "Kanzi.BitOpsTie"}[module]
     return [{"module": module, "name": n if n.startswith("Kanzi.") else ns + "." + n, "partial": partial or n.endswith("_partial")} for n in names]
 
 
@@ -60,6 +60,7 @@ MJOBS = "Kanzi.Properties.C05_jobs"
 JOBS_T = ["C05_jobs_partition", "C05_jobs_fewer", "C05_jobs_closed_form", "C05_jobs_errors", "C05_bwt_chunks_covered_gen", "C05_bwt_chunks_covered"]
 
 MCT = "Kanzi.Properties.ConstsTie"
+MBO = "Kanzi.Properties.BitOpsTie"
 C07_ALL = ["C07_enc_mutex", "C07_dec_mutex", "C07_enc_ordered", "C07_dec_ordered", "C07_enc_progress", "C07_dec_progress",
            "C07_enc_measure_mono", "C07_dec_measure_mono", "C07_enc_measure_init", "C07_dec_measure_init",
            "C07_enc_cancel_stable", "C07_dec_cancel_stable", "C07_enc_crit_failure_blocks", "C07_dec_crit_failure_blocks",
@@ -72,11 +73,11 @@ PROPS = {}
 PROPS["C01"] = {
     "title": "Lossless round trip through the stream API", "design_ref": "5.1", "level": "proof",
     "technique": "Lean 4 theorems: writer emits chunks(B,data) for every partition/jobs/hint, container frames parse back, reader returns their concatenation for every jobs/hint/read sizes (composition = round trip under H_codec); transform-sequence skip-flag round trip; NONE codec proved; real-code round-trip search over all codecs",
-    "facts": ["Consts"],
+    "facts": ["Consts", "BitOps"],
     "theorems": T(M01, "C01_roundtrip", "C01_empty_stream") + T(W, "C04_writer_blocks") + T(R, "C05_reader_refines_spec") + T(K, "C10_stream_layout")
                 + T(M13, "C13_sequence", "C13_sequence_mode_byte", "C13_sequence_small") + T(M12, "C12_none")
                 + T(MJOBS, "C05_bwt_chunks_covered", "C05_jobs_partition")
-                + T(MNONE, "C01_codec_NONE", "C01_codec_NONE_task", "C01_codec_NONE_bits", "C01_stream_image_layers", "C01_stream_image_parses", "C01_stream_image_fast", "C01_none_end_to_end") + T(MCT, "io_consts", "kanzi_consts", "consts_nonvacuous"),
+                + T(MNONE, "C01_codec_NONE", "C01_codec_NONE_task", "C01_codec_NONE_bits", "C01_stream_image_layers", "C01_stream_image_parses", "C01_stream_image_fast", "C01_none_end_to_end") + T(MCT, "io_consts", "kanzi_consts", "consts_nonvacuous") + T(MBO, "writeHeader_layout", "readHeader_layout", "frame_layout", "block_prologue_layout"),
     "streams": [SW, SR, JOBS, IMAGE, RT, RTBIG],
     "level_text": "PROOF of the stream layer under assumption H_codec, plus search. Proved for all data, all partitions into Write calls, all job counts on both sides, all size-hint values, all read sizes: Write/Close succeed, the blocks are chunks(B,data), the framed stream parses back to them, and the reader returns exactly data then end-of-stream (C01_roundtrip = C04_writer_blocks + C10_stream_layout + C05_reader_refines_spec); the transform sequence with any pattern of declined stages and both skip-flag layouts round-trips (C13_sequence*); NONE entropy proved (C12_none); for the NONE/NONE codec H_codec is PROVED incl. the copy-block branch and the three checksum widths (C01_codec_NONE) and the whole chain is closed at the byte level: the bytes the Writer model emits, for any partition/jobs/hint, parse back through header, framing and block decode to the data (C01_none_end_to_end), and that byte image is byte-identical to the real Writer's output (image stream). ASSUMED (H_codec) for the other transforms/entropy codecs: decode(encode(block)) = block - searched on the real code (rt/rtbig: every transform and entropy, chains up to 8, all data shapes, block sizes, jobs, hints, headerless).",
     "level_note": BASE_NOTE + "H_codec for 17 transforms and 8 entropy codecs is an assumption covered only by the rt/rtbig search; buffer-size sufficiency of the decoder for chained expanding transforms is searched, not proved.",
@@ -86,9 +87,9 @@ PROPS["C01"] = {
 PROPS["C02"] = {
     "title": "Checksummed streams never yield wrong bytes", "design_ref": "5.2", "level": "proof",
     "technique": "Lean 4 theorems on the reader state machine (nothing after an error; every returned byte precedes the failed block) + executable XXHash32/64 and header-CRC models tied differentially; payload-corruption search on real streams",
-    "facts": ["Consts"],
+    "facts": ["Consts", "BitOps"],
     "theorems": T(R, "C02_nothing_after_error", "C05_error_position") + T(M02H, "C02_hash_total", "C02_hash_stripes", "C02_hash_xxh32_vectors") + T(M10H, "C10_header_crc_detects_single_field")
-                + T(MNONE, "C02_crc_mismatch_detected", "C02_crc_field_checked", "C02_damaged_payload_shape") + T(MCT, "hash_consts", "io_crc_seed", "kanzi_consts"),
+                + T(MNONE, "C02_crc_mismatch_detected", "C02_crc_field_checked", "C02_damaged_payload_shape") + T(MCT, "hash_consts", "io_crc_seed", "kanzi_consts") + T(MBO, "block_prologue_layout"),
     "streams": [SR, HASH, IMAGE, CORRUPT],
     "level_text": "PROOF of the mechanism, hash quality out of scope. Proved on the reader model for every stream, job count and read-size sequence: a block whose decode/verification fails is reported by the Read that reaches it, every byte ever returned lies before it, and no later Read returns any byte (C05_error_position, C02_nothing_after_error). For the NONE/NONE block decoder: a payload whose data bytes or checksum field were replaced is rejected with a CRC error whenever the two hashes differ (C02_crc_mismatch_detected, C02_crc_field_checked). The XXHash32/64 functions and the header checksum are modelled bit-exactly (BitVec) and tied to the Go code differentially (hash stream). That a modified payload makes the recomputed hash differ is NOT provable for a 32/64-bit hash (collisions exist): searched - bit flips / substitutions / swaps at payload positions computed by an independent container parser, all entropy codecs, checksum 32/64; results must be error or original; true collisions are recognised and logged.",
     "level_note": BASE_NOTE + "Collision resistance of XXHash is not assumed and not proved; the per-codec decode of corrupted payloads is real code only.",
@@ -169,7 +170,8 @@ PROPS["C08"] = {
 PROPS["C09"] = {
     "title": "Truncated streams are always detected", "design_ref": "5.9", "level": "proof",
     "technique": "Lean 4 theorems: bit-level prefix of a framed stream never parses to an end marker; reader model never reports EOF without having consumed the end marker; input bitstream raises end-of-stream instead of fabricating bits; truncation search on real streams",
-    "theorems": T(K, "C09_prefix_truncated", "C10_stream_layout", "C10_frame_layout") + T(R, "C09_no_eof_without_marker", partial=True) + T(M14I, "C14_ibs_eos"),
+    "facts": ["BitOps"],
+    "theorems": T(K, "C09_prefix_truncated", "C10_stream_layout", "C10_frame_layout") + T(R, "C09_no_eof_without_marker", partial=True) + T(M14I, "C14_ibs_eos") + T(MBO, "endMarker_layout", "frame_layout"),
     "streams": [SR, IBS, TRUNC],
     "level_text": "PROOF. (1) Container: any strict bit prefix of frames++endmarker parses to a prefix of the payloads followed by `truncated`, never to an end marker (C09_prefix_truncated; a cut of whole bytes always drops a real bit since Close pads < 8 bits). (2) Input bitstream: asking for more bits than remain raises end-of-stream, never fabricated zero bits, in every read path incl. the unaligned bulk loops (C14_ibs_eos). (3) Reader: for ANY frame list without end marker no sequence of Reads returns io.EOF unless an error was returned before (C09_no_eof_without_marker; PARTIAL: under the hypothesis that no frame decodes to zero bytes without error - true of every frame a writer produces, since blocks are never empty; the unrestricted statement is false for the model and the counterexample is kept as theorem no_eof_without_marker_counterexample), with or without checksums. Search: every cut position of small real streams of every codec, boundary and random cuts of large ones.",
     "level_note": BASE_NOTE + "Truncation inside the header is reported by readHeader (real code, covered by the hash/trunc streams, header parse model C10_header_roundtrip).",
@@ -179,8 +181,8 @@ PROPS["C09"] = {
 PROPS["C10"] = {
     "title": "Streams written by the reference encoder keep decoding (format stability)", "design_ref": "5.10", "level": "proof",
     "technique": "PARTIAL Lean proof: header and frame layout written by hand from the format and proved to round-trip; models tied to the current code differentially; cross-version differential against a vendored pinned reference + archived golden corpus",
-    "facts": ["Consts"],
-    "theorems": T(M10H, "C10_header_roundtrip", "C10_header_writer_wf", "C10_header_length", "C10_header_crc_detects_single_field") + T(K, "C10_frame_layout", "C10_end_marker", "C10_stream_layout") + T(MCT, "io_consts", "io_crc_seed", "hash_consts", "entropy_type_codes", "transform_consts", "consts_nonvacuous"),
+    "facts": ["Consts", "BitOps"],
+    "theorems": T(M10H, "C10_header_roundtrip", "C10_header_writer_wf", "C10_header_length", "C10_header_crc_detects_single_field") + T(K, "C10_frame_layout", "C10_end_marker", "C10_stream_layout") + T(MCT, "io_consts", "io_crc_seed", "hash_consts", "entropy_type_codes", "transform_consts", "consts_nonvacuous") + T(MBO, "headerBits_length", "writeHeader_layout", "readHeader_layout", "endMarker_layout", "frame_layout", "frameBits_length", "block_prologue_layout", "encodeNone_length", "entropy_layouts", "entropy_pairs_mirror", "bitops_nonvacuous"),
     "streams": [HASH, SR, GOLDEN],
     "level_text": "PARTIAL PROOF + cross-version differential. Proved: the version-6 header layout (constants written by hand from the format) and the frame layout parse back exactly (C10_header_roundtrip, C10_frame_layout, C10_stream_layout); these make the Lean/Go container builders independent encoders whose NONE/NONE streams the current Reader must decode (sr stream), so a symmetric change of header layout, CRC, hash or length coding is detected. NOT modelled: codec bit formats other than NONE: covered by decoding streams produced by the vendored pinned reference (never edited) and an archived golden corpus with SHA-256 of the originals.",
     "level_note": BASE_NOTE + "The vendored reference snapshot ref/kanzi-go-v2 (pinned commit 76efab5) and the golden corpus are trusted as the definition of format 6.",
@@ -200,10 +202,10 @@ PROPS["C11"] = {
 PROPS["C12"] = {
     "title": "Entropy codecs: exact inverse pairs with bit-exact consumption", "design_ref": "5.12", "level": "proof",
     "technique": "PARTIAL Lean proof: varint, alphabet, NONE codec, ANS/Range frequency headers, rANS step incl. reciprocal division proved as inverse pairs with exact consumption on bit strings; whole ANS0 chunks tied differentially; all 9 codecs searched directly on the real code",
-    "facts": ["Consts"],
+    "facts": ["Consts", "BitOps"],
     "theorems": T(M12, "C12_varint", "C12_alphabet", "C12_none", "C12_freq_header", "C12_freq_header_needs_sum", "C12_freq_header_after_normalize", "C12_ans_reciprocal", "C12_ans_encode_closed_form", "C12_ans_step")
                 + T(M16, "C16_normalize")
-                + T("Kanzi.Properties.C12_ans0", "C12_ans0_single_state", "C12_ans0_interleaved", "C12_ans0_payload_le", "C12_ans0_chunk", "C12_ans0_chunk_sz", "C12_ans0_one_chunk", "C12_ans0_block") + T(MCT, "entropy_consts", "consts_nonvacuous"),
+                + T("Kanzi.Properties.C12_ans0", "C12_ans0_single_state", "C12_ans0_interleaved", "C12_ans0_payload_le", "C12_ans0_chunk", "C12_ans0_chunk_sz", "C12_ans0_one_chunk", "C12_ans0_block") + T(MCT, "entropy_consts", "consts_nonvacuous") + T(MBO, "entropy_layouts", "entropy_pairs_mirror"),
     "streams": [ENTSMALL, ENTDIRECT],
     "level_text": "PARTIAL PROOF. Proved in Lean, each as `decode (encode x ++ rest) = (x, rest)` for every trailing bit string (exact consumption): VarInt, alphabet (all three encodings), the NONE codec for every length incl. 0 and > 2^23, the ANS order-0 and Range frequency headers (correct iff the table sums to 2^lr - which C16_normalize guarantees: C12_freq_header_after_normalize), one rANS step incl. the reciprocal-multiply division for every frequency and state. The whole ANS order-0 codec is proved: one state over any symbol list, the 4 interleaved states sharing one word stream, header + chunk, and the complete block Write/Read with per-chunk normalised tables (C12_ans0_block: for all bytes, lr in [8,15], chunk size < 2^26, decode(encode blk ++ rest) = (blk, rest)); the same model is tied differentially (byte-identical output on thousands of blocks). NOT modelled: the encoder's finite output buffer for ANS0, Huffman, Range arithmetic, ANS order 1, FPAQ, CM, TPAQ, TPAQX - searched directly on the real code (entdirect: all 9 codecs, lengths around every chunk boundary, 1..256 symbols, adversarial histograms, misaligned start, trailing sentinel, Read()==Written()).",
     "level_note": BASE_NOTE + "logRange restricted to [8,15] as used by the factory (16 is accepted by the public constructors but unusable: observation in DESIGN.md).",
